@@ -577,7 +577,7 @@ def disj(items):
 
 
 BOOL_FNS = {"lt0", "le0", "eq0", "ne0", "and", "or", "not", "eq", "isnan", "isfinite", "notnan", "all", "any", "m:all", "m:any",
-            "isscalar", "isclose", "in", "isinstance", "callable", "is_none", "truthy", "array_equal", "hasattr", "allclose", "loop_returns", "issubdtype", "can_cast", "isinf", "isposinf", "isneginf"}
+            "isscalar", "isclose", "in", "isinstance", "callable", "is_none", "truthy", "array_equal", "hasattr", "allclose", "loop_returns", "issubdtype", "can_cast", "isinf", "isposinf", "isneginf", "isin"}
 
 
 def is_boolish(v):
